@@ -7,7 +7,7 @@
    The event log [log s] is newest first.  Proofs: Proofs/Workers_proofs.v. *)
 From Coq Require Import List NArith Bool Arith.
 Import ListNotations.
-From HV Require Import Model.Workers Proofs.Workers_proofs.
+From HV Require Import Model.Workers Proofs.Workers_proofs Model.WorkersAccept Proofs.WorkersAccept_proofs.
 
 (* a concrete run used for the non-vacuity examples: 2 workers, job 0 = tasks 0,1 (task 1 fails),
    job 1 = task 2, then Stop *)
@@ -287,3 +287,27 @@ Print Assumptions C26_serial_spec.
 
 Example C26_serial_spec_ex : serial_job [false; true; false; true] None 0 = ([0; 1], Some 1).
 Proof. reflexivity. Qed.
+
+(* ---- the tie to the Go code: trace inclusion ------------------------------------------------------ *)
+(* Check/C26_check.v accepts an event trace observed from the real pool only if [accepts] (Model/WorkersAccept.v)
+   returns true for it.  Soundness of that acceptor: an accepted trace [evs] is the visible part ([obs_of]) of a
+   run [its] of the instrumented LTS (labels of Model/Workers.v interleaved with the driver's stamps, each stamp
+   guarded by the LTS state it can be taken in), and the label part of that run is a run [steps] of the LTS all
+   the theorems above quantify over. *)
+Theorem C26_trace_inclusion_sound : forall c evs, accepts c evs = true ->
+  exists its o, orun c oinit its = Some o /\ obs_of its = evs /\ steps c init (labels_of its) (o_s o).
+Proof. exact accepts_sound. Qed.
+Print Assumptions C26_trace_inclusion_sound.
+
+(* non-vacuity: the observed counterpart of [ex_tr] is accepted; a trace in which the second job's task begins
+   before the first job's failing task ended is not *)
+Definition ex_obs : list oev :=
+  [ONewCall 0; ONew 0 true; OGo 0 0; OGo 0 1; ODoneCall 0; ONewCall 1; ONew 1 true; OGo 1 0; ODoneCall 1;
+   OBeg 0 0; OBeg 0 1; OEnd 0 1 false; OEnd 0 0 true; OBeg 1 0; OWait 0 3; OEnd 1 0 true; OWait 1 0;
+   OStopCall; OSeenShut; OStopRet].
+Example C26_trace_inclusion_ex : accepts ex_c ex_obs = true.
+Proof. vm_compute. reflexivity. Qed.
+Example C26_trace_inclusion_ex_rejected :
+  accepts ex_c [ONewCall 0; ONew 0 true; OGo 0 0; OGo 0 1; ODoneCall 0; ONewCall 1; ONew 1 true; OGo 1 0; ODoneCall 1;
+                OBeg 0 0; OBeg 0 1; OEnd 0 0 true; OBeg 1 0; OEnd 0 1 false; OWait 0 3; OEnd 1 0 true; OWait 1 0] = false.
+Proof. vm_compute. reflexivity. Qed.
